@@ -213,6 +213,7 @@ Definition set_many_spec (v : tval) (items : list (pstep * tval)) : option tval 
     let ins := firstn k srt in
     let rep := skipn k srt in
     if negb (nat_list_eqb (map (fun p => fst (pn_x p)) ins) (map (fun p => fst (pn_x p)) (filter is_abs pl))) then None else
+    if negb (forallb is_abs ins) then None else
     if negb (forallb (fun p => negb (is_abs p)) rep) then None else
     if negb (chain_okb (nf_start (type_of v)) (zlen (encode v)) rep) then None else
     match repl_desc v (rev rep) with
